@@ -398,7 +398,7 @@ func init() {
 		"strconv.Atoi": func(ex *Exec, fn *ssa.Function, a []Value, g *Term, w string) Value {
 			x := a[0].(*Term)
 			if !x.Liftable() {
-				unsupported("strconv.Atoi on a symbolic string at %s", w)
+				return atoiSymbolic(ex, x)
 			}
 			n := lift(SBV, func(cs []*Term) *Term { v, _ := strconv.Atoi(cs[0].s); return BV(int64(v)) }, x)
 			bad := lift(SBool, func(cs []*Term) *Term { _, err := strconv.Atoi(cs[0].s); return Bool(err != nil) }, x)
@@ -1620,4 +1620,30 @@ func bytesBufferType(ex *Exec) types.Type {
 	}
 	unsupported("package bytes is not loaded")
 	return nil
+}
+
+// strconv.Atoi on a symbolic string, exactly: optional sign, then a non-empty run of decimal digits
+// (SMT-LIB str.to_int is -1 otherwise); values outside int64 are a range error (clamped value).
+func atoiSymbolic(ex *Exec, x *Term) Value {
+	ln := StrLenInt(x)
+	c0 := Substr(x, IntC(0), IntC(1))
+	neg := Eq(c0, Str("-"))
+	signed := Or(neg, Eq(c0, Str("+")))
+	body := Ite(signed, Substr(x, IntC(1), IntBin(OpIntSub, ln, IntC(1))), x)
+	n := mkApp(OpStrToInt, SInt, "", body)
+	syntax := IntBin(OpIntLt, n, IntC(0))
+	const maxI = int64(^uint64(0) >> 1)
+	overPos := Not(IntBin(OpIntLe, n, IntC(maxI)))                         // n > 2^63-1
+	overNeg := Not(IntBin(OpIntLe, IntBin(OpIntSub, n, IntC(1)), IntC(maxI))) // n > 2^63
+	rangeErr := And(Not(syntax), Ite(neg, overNeg, overPos))
+	bad := Or(syntax, rangeErr)
+	pos := mkApp(OpInt2BV, SBV, "", n)
+	ngv := mkApp(OpInt2BV, SBV, "", IntBin(OpIntSub, IntC(0), n))
+	val := Ite(syntax, BV(0), Ite(neg, Ite(overNeg, BV(-maxI-1), ngv), Ite(overPos, BV(maxI), pos)))
+	e := &ErrVal{Nil: Not(bad), Bits: make([]*Term, len(ex.errNames))}
+	for i := range e.Bits {
+		e.Bits[i] = False
+	}
+	e.Bits[0] = bad
+	return TupleVal{val, e}
 }
